@@ -1036,7 +1036,8 @@ def hist_judge(c, real):
 
 
 def _hist_public(steps, j):
-    return {'history': [{'file': c['file'], 'source': c['src']} for c in steps[:j + 1]],
+    return {'history': [{'file': c['file'], 'source': c['src'], 'line': c['line'], 'column': c['col']}
+                        for c in steps[:j + 1]],
             'line': steps[j]['line'], 'column': steps[j]['col'], 'judged_step': j,
             'definition': steps[j]['def_src'], 'callee': steps[j]['callee']}
 
@@ -1885,7 +1886,8 @@ def run(ctx):
 def replay_history(payload):
     inp = payload['input']
     j = len(inp['history']) - 1
-    steps = [{'file': e['file'], 'src': e['source'], 'line': inp['line'], 'col': inp['column']} for e in inp['history']]
+    steps = [{'file': e['file'], 'src': e['source'], 'line': e.get('line', inp['line']),
+              'col': e.get('column', inp['column'])} for e in inp['history']]
     answers = hist_play(steps)
     for k, (e, r) in enumerate(zip(inp['history'], answers)):
         print('step %d file=%r first line %r' % (k, e['file'], e['source'].split('\n')[0]))
@@ -1894,7 +1896,7 @@ def replay_history(payload):
     obj, _ = exec_def(inp['definition'], inp['callee'])
     pysig, pyparams = py_params(obj)
     print('inspect.signature(%s) of the executed last source: %s' % (inp['callee'], pysig))
-    got = [(p['name'], p['kind']) for p in last.get('params', [])] if 'params' in last else None
+    got = [(p['name'], p['kind']) for p in last['params']] if 'params' in last else None
     alone = real_case(inp['history'][j]['source'], inp['line'], inp['column'])
     print('same request without history: to_string=%r index=%r' % (alone.get('to_string'), alone.get('index')))
     print('expected:', payload.get('expected'))
